@@ -63,6 +63,11 @@ TRUSTED = [
     "checked, not proved: that the structure terms denote what the Python computes (grade of each term = parity measured on "
     "the real code); the axis symmetries in tauFacts are proved elementwise (band pair fixed), their use for sums over band "
     "groups relies on additivity",
+    "result level (oracle): every static calculator with k_resolved x tetra, tabulators with/without ibands, dynamic and SDCT "
+    "calculators with Lorentzian/Gaussian smearing and kBT variants are called on Data_K objects at k and -k; checked: the "
+    "result's declared transforms equal the formula's (or the calculator-level override) and result(-k) = the result's own "
+    "transform of result(k); the result construction sites (which formula attribute goes to which transform keyword) are "
+    "read from the ast of StaticCalculator/DynamicCalculator/Tabulator.__call__",
     "band blocks (nn/ln/nl/ll), eps-slices, axis permutations, delta products and traces are index operations (`lin`): "
     "which index goes where is not modelled, only that the operation is real-linear",
 ]
